@@ -167,3 +167,21 @@ Definition la_ok (l : la) : bool :=
   && forallb (fun k => kind_beq k KScenarioLine || kind_beq k KExamplesLine) (la_expected l).
 Lemma lookaheads_ok : forallb la_ok lookaheads = true.
 Proof. vm_compute. reflexivity. Qed.
+
+(* C16: blank lines.  Outside descriptions and doc strings an #Empty line is built and leaves the state unchanged *)
+Definition empty_self_loop (x : st) : bool :=
+  match find (fun y => kind_beq (t_kind y) KEmpty) (s_tests x) with
+  | Some y => Nat.eqb (t_tgt y) (s_id x) && list_beq prod_beq (t_prods y) [PB]
+              && match t_guard y with None => true | Some _ => false end
+  | None => false
+  end.
+Definition description_states (tbl : list st) : list nat :=
+  flat_map (fun x => flat_map (fun y => if existsb (fun p => prod_beq p (PS RDescription)) (t_prods y) then [t_tgt y] else [])
+                              (s_tests x)) tbl.
+Definition blank_neutral (tbl : list st) : bool :=
+  forallb (fun x => empty_self_loop x
+                    || existsb (Nat.eqb (s_id x)) (description_states tbl)
+                    || existsb (Nat.eqb (s_id x)) (docstring_states tbl)) tbl.
+Lemma blank_neutral_ok : blank_neutral table = true.
+Proof. vm_compute. reflexivity. Qed.
+
